@@ -93,7 +93,9 @@ def mutations(r, data, per_field=3, extra=12):
                 yield ("%s@%d=%d" % (name, off, v), set_field(data, off, width, v))
     # two fields at once (a record length together with a length inside the record): guards that rely on an
     # earlier check of the other field only show under such pairs
-    mids = [24, 25, 1000, 65535, 65537, 1 << 20, 1 << 27, (1 << 28) + 3, 1 << 30, (1 << 31) - 9, 1 << 31, (1 << 32) - 1, 1 << 40, (1 << 63) - 1, 1 << 63, (1 << 64) - 1]
+    # (values between 2^28 and 2^31 make the library allocate up to 2 GiB per input, which is within its documented ceiling but
+    # turns a parallel run into a memory benchmark: those boundaries are covered by a few corpus inputs instead)
+    mids = [24, 25, 1000, 65535, 65537, 1 << 20, 1 << 27, (1 << 27) + 3, 1 << 31, (1 << 32) - 1, 1 << 40, (1 << 63) - 1, 1 << 63, (1 << 64) - 1]
     recl = [f for f in fs if f[2].startswith("reclen")]
     inner = [f for f in fs if not f[2].startswith("reclen") and ("len" in f[2] or "size" in f[2])]
     for _ in range(extra):
